@@ -902,6 +902,12 @@ pub const STALE_TAILS: &[Tail] = &[
 /// generates the words, keeps its own copy as the model and hands a second
 /// copy to sux (optionally with garbage beyond `len`).
 pub fn big_dense(rng: &mut SmallRng, len: usize, dirty: bool) -> (BitVec<Vec<usize>>, BigModel) {
+    big_dense_tail(rng, len, dirty, None)
+}
+
+/// Like `big_dense`; with `tail = Some(v)` every bit from position 2^32 on has
+/// value `v` (the last 2^32-bit upper block then holds no ones, or no zeros).
+pub fn big_dense_tail(rng: &mut SmallRng, len: usize, dirty: bool, tail: Option<bool>) -> (BitVec<Vec<usize>>, BigModel) {
     let nw = len.div_ceil(64);
     let mut words = vec![0usize; nw];
     // regions of 2^16 words: saturated, empty, dense random, sparse random;
@@ -939,6 +945,12 @@ pub fn big_dense(rng: &mut SmallRng, len: usize, dirty: bool) -> (BitVec<Vec<usi
             kinds.push(['S', 'E', 'D', 's'][kind]);
         }
         i = end;
+    }
+    if let Some(v) = tail {
+        for w in words.iter_mut().skip(1usize << 26) {
+            *w = if v { !0 } else { 0 };
+        }
+        kinds.push_str(if v { " [all ones from 2^32 on]" } else { " [all zeros from 2^32 on]" });
     }
     if len % 64 != 0 {
         let l = nw - 1;
